@@ -78,6 +78,9 @@ def generate(rng, tier, idx):
         # the file changed size between fstat() and the read: the reported size hint is off, the content is what is read
         sc['fstat_skew'] = rng.choice([-1, 1, -(n // 2), 100, n, 65536, -65536])
     sc['rehash'] = rng.random() < 0.3
+    if rng.random() < 0.2:
+        # the file is called like a compressed file (a distfile): its BYTES are hashed, whatever the name suggests
+        sc['fname'] = rng.choice(['f.gz', 'data.tar.bz2', 'x.xz', 'y.lzma', 'Manifest.gz'])
     if api in ('hash_path', 'hash_file', 'metadata', 'verify', 'update') and rng.random() < 0.1:
         # storage fault: the k-th raw read of the file fails with EIO (k >= 2: after data has been delivered); the
         # error has to surface, never the digests of the prefix
@@ -160,13 +163,14 @@ def execute(sc):
     hint = {'true': n, 'zero': 0, 'smaller': max(n - 1, 0) // 2, 'larger': n + 7,
             'one': 1}[sc['hint']]
     with World(sc) as w:
-        w.put({'p': 'f', 'k': 'file', **sc['content']})
-        path = w.path('f')
+        fname = sc.get('fname', 'f')
+        w.put({'p': fname, 'k': 'file', **sc['content']})
+        path = w.path(fname)
         skew = sc.get('fstat_skew')
         seam = Seam(w.root, order_key=sc['order_key'], read_chunks=sc['chunks'],
-                    faults=([{'kinds': ['read'], 'path': 'f', 'nth': sc['read_fault'], 'errno': 'EIO'}] if sc.get('read_fault') else None),
-                    zero_size=['f'] if sc.get('zero_size') else None,
-                    size_override=({'f': max(1, n + skew)} if (skew and api == 'metadata' and not sc.get('zero_size')) else None))
+                    faults=([{'kinds': ['read'], 'path': fname, 'nth': sc['read_fault'], 'errno': 'EIO'}] if sc.get('read_fault') else None),
+                    zero_size=[fname] if sc.get('zero_size') else None,
+                    size_override=({fname: max(1, n + skew)} if (skew and api == 'metadata' and not sc.get('zero_size')) else None))
         extra_short = 0
         with seam:
             if api in ('hash_file', 'hash_file_read1'):
